@@ -1056,6 +1056,10 @@ func BuildMiddlewareFromNIP11(nip11 *NIP11) Middleware {
 	}
 
 	return func(h Handler) Handler {
+		if nip11.Limitation == nil {
+			return h
+		}
+
 		if v := nip11.Limitation.MaxSubscriptions; v != 0 {
 			h = NewMaxSubscriptionsMiddleware(v)(h)
 		}
